@@ -22,6 +22,7 @@ const (
 	patWellFormed = iota
 	patMalformed  // an error is required
 	patGray       // POSIX leaves it open: an error or the model's answer
+	patGrayAny    // "[." "[=" "[:" without its terminator inside a bracket expression: anything but a panic
 )
 
 var posixClasses = map[string]func(rune) bool{
@@ -83,7 +84,7 @@ func parsePattern(p []rune) ([]pelem, int) {
 					}
 					if k+1 >= len(p) {
 						// unterminated: POSIX leaves it unspecified
-						status = patGray
+						status = patGrayAny
 						e.items = append(e.items, pitem{lo: c, hi: c})
 						j++
 						continue
@@ -93,10 +94,10 @@ func parsePattern(p []rune) ([]pelem, int) {
 						if _, ok := posixClasses[name]; ok {
 							e.items = append(e.items, pitem{class: name})
 						} else {
-							status = patGray
+							status = grayer(status)
 						}
 					} else {
-						status = patGray
+						status = grayer(status)
 						r := []rune(name)
 						if len(r) == 1 {
 							e.items = append(e.items, pitem{lo: r[0], hi: r[0]})
@@ -150,6 +151,13 @@ func parsePattern(p []rune) ([]pelem, int) {
 		}
 	}
 	return out, status
+}
+
+func grayer(st int) int {
+	if st == patGrayAny {
+		return st
+	}
+	return patGray
 }
 
 func (e *pelem) matchRune(r rune) bool {
